@@ -46,6 +46,14 @@ REVERTS = [
     ('F47-read-again-after-error-panics', 'fc88375', {'C04': ['poison:returns-error:<armor::reader::Dearmor<R> as std::io::Read>::read:Part::Temp#1', 'poison:returns-error:composed::message::reader::literal::LiteralDataReader::<R>::fill_inner:via:is_done#1']}),
     ('F48-aead-decryptor-no-error-latch', 'a114df8', {'C03': ['v2:sticky-error'], 'C09': ['v2:sticky-error']}),
     ('F49-trailing-padding-buffered', '68e0845', {'C19': ["S19-5:buffer-read-is-used:composed::message::types::MessageReader::<'_>::check_trailing_data::check_next_packet#1"]}),
+    ('F50-composed', '1dbc79f', {'C09': ['eof-helper-mapped:composed::message::reader::packet_body::PacketBodyReader::<R>::fill_inner#1'], 'C04': ['eof-helper-mapped:composed::message::reader::packet_body::PacketBodyReader::<R>::fill_inner#1'], 'C03': ['eof-helper-mapped:composed::message::reader::packet_body::PacketBodyReader::<R>::fill_inner#1']}),
+    ('F51-pub-entry', '1a8909b', {'C04': ["poison:pub-entry:composed::message::types::Message::<'a>::verify_nested_explicit:via:hash#1"]}),
+    ('F52-no-expect-on-option-parameter', '0eb51d9', {'C04': ['focus:no-expect-on-option-parameter:packet::sym_encrypted_protected_data::SymEncryptedProtectedData::decrypt']}),
+    ('F53-gnupg-constructor-checks-key-l', '1e043d0', {'C04': ['focus:gnupg-constructor-checks-key-length']}),
+    ('F54-rsa-secret-primes-invertible', '7586156', {'C04': ['focus:rsa-secret-primes-invertible']}),
+    ('F55-<crypto', '857e232', {'C04': ['narrow-sum:<crypto::checksum::SimpleChecksum as std::hash::Hasher>::write#1']}),
+    ('F56-nesting-depth-bounded', 'cb753fd', {'C04': ['focus:nesting-depth-bounded']}),
+    ('F57-output-index-guarded', '6b579e5', {'C09': ['read:output-index-guarded:<base64::reader::Base64Reader<R> as std::io::Read>::read']}),
     ('F23-boolean-subpackets', '1b5ba7a', {'C05': ['S05-8:lossless-bool'], 'C02': ['S05-8:lossless-bool']}),
 ]
 tests = [dict(name='revert:' + n, kind='revert-fix', commit=c, expect=e) for n, c, e in REVERTS]
